@@ -891,6 +891,10 @@ def check(program, rep):
     from .. import namelink as _nl
     rep.guard("C07-R6", _nl.rule, program, rep, "C07-R6",
               [m for m in sorted(program.modules) if m.startswith("rig.machine_control")])
+    # every command of this operation travels under a sequence number: the
+    # numbers fit the 16-bit wire field and use all of it (C06-R2)
+    from . import C06 as _C06
+    rep.guard("C06-R2", _C06.r2_seq_numbers, program, rep, folder)
     return finish(rep, program, EXPLANATION, NOT_DECIDED,
                   trusted=["slice-length and floor-division axioms of the "
                            "LININV engine", "role table in roles.py"])
